@@ -7,6 +7,8 @@
      Leader(i)          instance i became the group's leader (leader-assigned numbering: the leader is 1, the others follow
                         in join order)
      Crashed(i)         instance i ended with a panic
+     Requested(i, n, t) / Info(i, n, t, lo, hi) / Settled   (dynamic membership) the orchestrator's request over the API, the
+                        answer of the instance's vBucket discovery, the end of a quiet period
      Stable             the group has been left alone for the bounded number of monitor rounds (emitted by the
                         environment: every live instance completed `K` rounds that began after the last change)
 
@@ -16,7 +18,9 @@
 EXTENDS Integers, Sequences, FiniteSets, TLC
 CONSTANTS Inst, NVB
 
-MonInit == [live |-> <<>>, lead |-> 0, cur |-> [i \in Inst |-> <<0, 0>>], viol |-> {}]
+MonInit == [live |-> <<>>, lead |-> 0, cur |-> [i \in Inst |-> <<0, 0>>],
+            req |-> [i \in Inst |-> <<0, 0>>],        \* (dynamic membership) the numbering the orchestrator requested last of instance i
+            viol |-> {}]
 
 Viol(o, msg) == [o EXCEPT !.viol = @ \cup {<<"C10", msg>>}]
 Check(o, c, msg) == IF c THEN o ELSE Viol(o, msg)
@@ -41,6 +45,14 @@ MonApply(o, e) ==
                    THEN Check(o, <<e.n, e.t>> # o.cur[e.i], "a numbering equal to the one in effect was announced again")
                    ELSE o
          IN  [o1 EXCEPT !.cur[e.i] = <<e.n, e.t>>]
+    \* dynamic membership: the orchestrator's request, what the instance's discovery then answers, the end of a quiet period
+    [] e.ev = "Requested" -> [o EXCEPT !.req[e.i] = <<e.n, e.t>>]
+    [] e.ev = "Info"     ->
+         LET o1 == Check(o, o.req[e.i] # <<0, 0>> /\ <<e.n, e.t>> = o.req[e.i], "the membership answers with a numbering that is not the one requested last")
+         IN  Check(o1, e.t > 0 /\ e.n >= 1 /\ e.n <= e.t /\ e.lo = ChunkLo(e.n, e.t) /\ e.hi = ChunkHi(e.n, e.t),
+                   "the vBucket range is not the chunk of the numbering")
+    [] e.ev = "Settled"  -> Check(o, \A i \in Members(o.live) : o.req[i] = <<0, 0>> \/ o.cur[i] = o.req[i],
+                                  "a requested numbering that differs from the one in effect was not announced")
     [] e.ev = "Crashed"  -> IF e.i \in Members(o.live) THEN Viol(o, "a live instance crashed") ELSE o
     [] e.ev = "Stable"   ->
          LET n == Len(o.live)
